@@ -124,9 +124,11 @@ impl Prop for C01 {
             return o;
         }
         // public API
-        let (s, mut r, mut e, pk) = keyset(seed);
+        let (s, mut r, mut e, mut pk) = keyset(seed);
         // identity relations the quantifier allows: a user encrypting to their own key; an ephemeral key equal to the static one
         match get(c, "ident") { "self" => { r = s.clone(); } "self-eph" => { r = s.clone(); e = s.clone(); } _ => {} }
+        // the caller-supplied payload key is any 32 bytes: all zero, all ones, mostly zero
+        match seed % 7 { 1 => { pk = vec![0u8; 32]; } 2 => { pk = vec![0xff; 32]; } 3 => { pk = vec![0u8; 32]; pk[31] = 1; } _ => {} }
         if !get(c, "ident").is_empty() { o.tags.push(format!("identity relation: {}", get(c, "ident"))); }
         let (spk, rpk, epk) = (pub_of(&s), pub_of(&r), pub_of(&e));
         let fresh = get(c, "fresh") == "true";
